@@ -34,7 +34,7 @@ class C17(fw.Prop):
     rule = ("header fields 0,1,255,256,65535 (and 65536 as refusal) in every position; wrap/unwrap for payload lengths 0,1,255,256,65535 and "
             "random; datagrams whose length field is off by -1/+1/random; transport receive over a scripted socket: every single split and "
             "every pair of splits of header+payload for messages <= 40 bytes (splits inside the 8-byte header included), random multi-splits "
-            "down to 1-byte reads for payloads up to 65535, back-to-back messages, streams that end early; messages of 1200..65535 bytes delivered one byte per read; non-trivial = distinct protocol line")
+            "down to 1-byte reads for payloads up to 65535, back-to-back messages, streams that end early; messages of 1200..65535 bytes delivered one byte per read; headers decoded again after the first result was turned into a reply header; a transport re-addressed between two sends; every distance -16..+16 between length field and payload, through both message classes; non-trivial = distinct protocol line")
     trusted_base = ["the scripted socket obeys the recv contract (1..n bytes unless the peer closed)"]
     assumptions = ["OS contract of socket.recv: returns at least one byte unless the connection is closed; timeouts are not modelled"]
     technique = "Lean 4 proof: big-endian header round trip, length check, and exact receive for every read schedule by induction on the receive loop; differential correspondence over all split positions with a scripted socket"
